@@ -36,6 +36,57 @@ def attr_codes(body):
     return out
 
 
+def attr_tlvs(body):
+    """(withdrawn-routes part, [attribute TLVs], NLRI tail) of a well-formed UPDATE body; None when it does not split"""
+    try:
+        wl = struct.unpack('!H', body[:2])[0]
+        al = struct.unpack('!H', body[2 + wl:4 + wl])[0]
+    except struct.error:
+        return None
+    a = body[4 + wl:4 + wl + al]
+    if len(a) != al:
+        return None
+    tlvs = []
+    while a:
+        if len(a) < 3:
+            return None
+        n = 4 + struct.unpack('!H', a[2:4])[0] if (a[0] & 0x10 and len(a) >= 4) else 3 + a[2]
+        if len(a) < n:
+            return None
+        tlvs.append(a[:n])
+        a = a[n:]
+    return body[:2 + wl], tlvs, body[4 + wl + al:]
+
+
+def rebuild(head, tlvs, tail):
+    a = b''.join(tlvs)
+    return head + struct.pack('!H', len(a)) + a + tail
+
+
+def sequence_edits(body, r, tier):
+    """the same attributes in another arrangement: each one repeated (twice, three times), each one left out, reversed,
+    rotated - what one attribute's decoder leaves behind for the next, or expects from an earlier one, is part of the input"""
+    sp = attr_tlvs(body)
+    if sp is None or not sp[1]:
+        return []
+    head, tlvs, tail = sp
+    out = []
+    for i, t in enumerate(tlvs):
+        out.append(rebuild(head, tlvs[:i] + [t, t] + tlvs[i + 1:], tail))
+        out.append(rebuild(head, tlvs[:i] + tlvs[i + 1:], tail))
+        out.append(rebuild(head, [t, t], tail))
+        out.append(rebuild(head, [t, t, t], tail))
+        out.append(rebuild(head, tlvs + [t], tail))
+    if len(tlvs) > 1:
+        out.append(rebuild(head, tlvs[::-1], tail))
+        out.append(rebuild(head, tlvs[1:] + tlvs[:1], tail))
+        out.append(rebuild(head, tlvs + tlvs, tail))
+    out = [b for b in dict.fromkeys(out) if len(b) + 19 <= 4096]
+    if tier == 'quick' and len(out) > 12:
+        out = out[:4] + r.sample(out[4:], 8)
+    return out
+
+
 def run(seed, tier, driver):
     res = SuiteResult('hostile')
     r = rng_for(seed, 'hostile', tier)
@@ -88,9 +139,15 @@ def run(seed, tier, driver):
             for v in vals[:per]:
                 m = body[:i] + bytes([v]) + body[i + 1:]
                 cases.append(('mutation', MARK + struct.pack('!HB', len(m) + 19, 2) + m))
+    nseq = 0
+    for b in chosen:
+        for m in sequence_edits(b[19:], r, tier):
+            cases.append(('sequence', MARK + struct.pack('!HB', len(m) + 19, 2) + m))
+            nseq += 1
+    res.stats.hit('sequence_edits', nseq)
     if tier == 'quick' and len(cases) > 9000:
-        head = [c for c in cases if c[0] == 'corpus']
-        cases = head + r.sample([c for c in cases if c[0] != 'corpus'], max(0, 9000 - len(head)))
+        head = [c for c in cases if c[0] in ('corpus', 'sequence')]
+        cases = head + r.sample([c for c in cases if c[0] not in ('corpus', 'sequence')], max(0, 9000 - len(head)))
     hangs = 0
     for kind, frame in cases:
         p = Pair({}, driver, res)
